@@ -370,4 +370,63 @@ def clientHttp (resp : Option Str) : Except ClientErr Doc :=
   | none => .error .http404
   | some b => liftParse b
 
+/-! ### end to end: the request a client sends, the server's reply, what the client returns -/
+
+inductive Transport | v1 | v2 | http
+  deriving DecidableEq, Repr
+
+def Endpoint.name : Endpoint → Str
+  | .versions => "versions".toList
+  | .cdns => "cdns".toList
+  | .bgdl => "bgdl".toList
+
+/-- a product request of the property: transport, product, endpoint. -/
+structure Req where
+  t : Transport
+  product : Str
+  ep : Endpoint
+  deriving DecidableEq, Repr
+
+def Transport.ver : Transport → Str
+  | .v2 => ['v', '2']
+  | _ => ['v', '1']
+
+/-- the endpoint string `RibbitClient::query` / `TactClient::query` is called with:
+`{v1|v2}/products/{product}/{endpoint}` (the HTTP client is given the `v1/…` form). -/
+def Req.endpoint (q : Req) : Str :=
+  q.t.ver ++ "/products/".toList ++ q.product ++ '/' :: q.ep.name
+
+/-- `TactClient::query`: `v1/products/{x}` → `/{x}`, anything else gets a leading '/' unless it
+has one; the result is appended to the base URL (URL parsing by `reqwest` not modelled). -/
+def tactPath (endpoint : Str) : Str :=
+  let t := if startsWith "v1/products/".toList endpoint then endpoint.drop 11 else endpoint
+  if startsWith ['/'] t then t else '/' :: t
+
+/-- what comes back: the bytes of a TCP connection (empty = closed without a reply) or an HTTP
+status 200 with a body / 404. -/
+inductive Reply
+  | tcp (bytes : Str)
+  | http (resp : Option Str)
+  deriving DecidableEq, Repr
+
+/-- the server's side of one exchange, given the endpoint string the client was called with. -/
+def respondTo (H : Str → Str) (s : Server) (seqn : Nat) (t : Transport) (endpoint : Str) : Reply :=
+  match t with
+  | .http => .http (handleHttp s seqn (tactPath endpoint))
+  | _ => .tcp (tcpExchange H s seqn endpoint)
+
+/-- the server's reply to a product request. -/
+def respond (H : Str → Str) (s : Server) (seqn : Nat) (q : Req) : Reply :=
+  respondTo H s seqn q.t q.endpoint
+
+/-- the server's reply to `v1/summary` (TCP v1 only). -/
+def respondSummary (H : Str → Str) (s : Server) (seqn : Nat) : Reply :=
+  respondTo H s seqn .v1 "v1/summary".toList
+
+/-- the client's side: `RibbitClient::query` on the received bytes, `TactClient::query` on the
+HTTP response. -/
+def query (H : Str → Str) : Reply → Except ClientErr Doc
+  | .tcp raw => clientTcp H raw
+  | .http r => clientHttp r
+
 end Cascette.Model.Ribbit
